@@ -55,6 +55,20 @@ CLAIMED["C03"] = dict(
     technique="TLA+ spec + TLC model checking; replay of TLC behaviours; trace validation by TLC",
 )
 
+CLAIMED["C05"] = dict(
+    category="model_checking",
+    text="Prune.tla defines the greatest fixed point, iterative derivability (each in two independent ways that TLC proves equal "
+         "on every dictionary over 2-3 labels), proof-tree validity and minimum tree size; RuleDB.tla adds equivalence (SCC) and "
+         "'rules up to equivalence'. TLC exports every dictionary and every rule-insertion history; each goes through the real "
+         "prune / iterative_prune / every finder with every outcome of the random source enumerated / the binary search behind "
+         "'smallest' / a real RuleDB queried after every insertion, and TLC judges every result event; has_specification calls of "
+         "real searches are judged too.",
+    design_ref="DESIGN.md 3/C05",
+    note="Trusted: TLC. Known finding: proof_tree_generator_bfs violates one-rule-per-class (known_findings.json). "
+         "iterative_proof_tree_bfs (unexported, unused) is outside the finder list.",
+    technique="TLA+ spec + TLC model checking; replay of TLC-enumerated inputs; result/trace validation by TLC",
+)
+
 NOT_YET = {}
 
 ALL = ["C%02d" % i for i in range(1, 21)]
